@@ -12,762 +12,847 @@ Definition show_fres (r : fres) : string :=
   end.
 Definition check (rs : list rune) : string := digest (show_fres (format_res rs)).
 Definition full (rs : list rune) : string := show_fres (format_res rs).
-Eval vm_compute in ("<<<M339>>>" ++ check (runes_of_ascii "// @lengthOf(
-packet A { repeat rootA
-{ repeat o , BodyLength i64_ `// not a comment` ,  repeatCount @calculatedFrom(""it's"" ) , }
-    // @lengthOf(
-    ,
-//x
-//x
-@tag( 0 ) falsey @lengthOf( BodyLength
-), @leftPad ( ) @calculatedFrom( ""1"" )
-@lengthOf(int ) match trueish
-as body // trailing space 
-{ [ 007
-, 7
-,
-    ""abc"",
-""x y"" ,  00 , ""// no comment"" ,
-    255, 1
-]: body
-, } , @lengthOf( Pad ) metadata@calculatedFrom( ""it's"" )
-,
-    // `tick` ""quote"" 'q'
-    @leftPad() @calculatedFrom(	""" ++ [233]%N ++ runes_of_ascii "t" ++ [233]%N ++ runes_of_ascii """ ) char falsey `" ++ [233]%N ++ runes_of_ascii "`,char[
-007 ] metadata @lengthOf( chars) , @rightPad ( '0'
-) u8 // c
-roots@calculatedFrom( ""packet"" ) ,
-    string_ MetaDataX ,@lengthOf( Z9_ ) @leftPad ( '\x00' ) /// triple
-@rightPad
-    ( ' ' //
-) MetaDataX
-    `two words`  ,zchar[
-0
-    ]
-body// " ++ [27880; 37322]%N ++ runes_of_ascii "
-`line1
-line2` , } packet
-    // packet A { u8 x, }
-    uint8x {@rightPad  ( '0' )
-    //	t
-    char[]stringy,MetaDataX Z9_ , i8 Logon , } root packet
-    //	t
-    u // " ++ [128512]%N ++ runes_of_ascii " emoji
-{ int64 Z9_
-    , zchar[ 00 ]
-    string_
-    //
-    `" ++ [28040; 24687; 31867; 22411]%N ++ runes_of_ascii "` ,
-    @calculatedFrom(""a\""b""
-    )
-@tag( 3  ) @rightPad (
-'0' ) repeat u32 packetx `two words` , char[42
-] string_ , repeat Header lengthOf ,
-}
-options // packet A { u8 x, }
-{	} packet Header
-// " ++ [128512]%N ++ runes_of_ascii " emoji
-// packet A { u8 x, }
-{ @rightPad
-(//x
-)metadata { char[ 65535// c
-]o, repeat x
-// c
-/// triple
-{char[
-4294967296 ]  options1 , }
-// c
-// a // b
-,
-roots Header, } , }
-")).
-Eval vm_compute in ("<<<M387>>>" ++ check (runes_of_ascii "options {
-	StringPrefixLenType = u16;
-	ArrayPrefixLenType = u16;
-}
-
-packet SampleBinary {
-	uint16 MsgType `" ++ [28040; 24687; 31867; 22411]%N ++ runes_of_ascii "`,
-	u16 BodyLenght @lengthOf(Body) `" ++ [28040; 24687; 20307; 38271; 24230]%N ++ runes_of_ascii "`,
-	match MsgType as Body {
-		1 : Logon,
-		2 : Logout,
-		3 : Heartbeat,
-		4 : RiskControlRequest,
-		5 : RiskControlResponse,
-	},
-	@calculatedFrom(""CRC32"")
-	u32 Ckecksum `" ++ [26657; 39564; 21644]%N ++ runes_of_ascii "`,
-}
-
-packet Logon {
-	@leftPad('0')
-	char[10] UserName `" ++ [29992; 25143; 21517]%N ++ runes_of_ascii "`,
-	string Password `" ++ [23494; 30721]%N ++ runes_of_ascii "`,
-	uint64 ClientId `" ++ [23458; 25143; 31471]%N ++ runes_of_ascii "ID`,
-	u16 HeartbeatInterval `" ++ [24515; 36339; 38388; 38548]%N ++ runes_of_ascii "`,
-}
-
-packet Logout {
-	@rightPad('0')
-	char[10] UserName `" ++ [29992; 25143; 21517]%N ++ runes_of_ascii "`,
-	uint64 ClientId `" ++ [23458; 25143; 31471]%N ++ runes_of_ascii "ID`,
-}
-
-packet Heartbeat {
-}
-
-packet RiskControlRequest {
-	string UniqueOrderId `" ++ [21807; 19968; 35746; 21333; 21495]%N ++ runes_of_ascii "`,
-	char[16] ClOrdID `" ++ [23458; 25143; 35746; 21333; 21495]%N ++ runes_of_ascii "`,
-	char[3] MarketID `" ++ [24066; 22330]%N ++ runes_of_ascii "id`,
-	char[12] SecurityID `" ++ [35777; 21048; 20195; 30721]%N ++ runes_of_ascii "`,
-	char Side `" ++ [20080; 21334; 26041; 21521]%N ++ runes_of_ascii "`,
-	char OrderType `" ++ [35746; 21333; 31867; 22411]%N ++ runes_of_ascii "`,
-	u64 Price `" ++ [20215; 26684]%N ++ runes_of_ascii "`,
-	u32 Qty `" ++ [25968; 37327]%N ++ runes_of_ascii "`,
-	repeat string ExtraInfo `" ++ [38468; 21152; 20449; 24687]%N ++ runes_of_ascii "`,
-	repeat SubOrder {
-		char[16] ClOrdID `" ++ [23376; 35746; 21333; 21495]%N ++ runes_of_ascii "`,
-		u64 Price `" ++ [23376; 35746; 21333; 20215; 26684]%N ++ runes_of_ascii "`,
-		u32 Qty `" ++ [23376; 35746; 21333; 25968; 37327]%N ++ runes_of_ascii "`,
-	},
-}
-
-packet RiskControlResponse {
-	string UniqueOrderId `" ++ [21807; 19968; 35746; 21333; 21495]%N ++ runes_of_ascii "`,
-	i32 Status `" ++ [29366; 24577]%N ++ runes_of_ascii "`,
-	string Msg `" ++ [32467; 26524; 20449; 24687]%N ++ runes_of_ascii "`,
-	repeat Detail,
-}
-
-packet Detail {
-	string RuleName `" ++ [35268; 21017; 21517; 31216]%N ++ runes_of_ascii "`,
-	u16 Code `" ++ [21407; 22240; 20195; 30721]%N ++ runes_of_ascii "`,
-}")).
-Eval vm_compute in ("<<<M1332>>>" ++ check (runes_of_ascii "options {
-    FixedStringPadFromLeft = true;
-    FixedStringPadChar = '0';
-}
-packet Leg {
-    InPrice0 {
-        repeat string clOrdID,
-        int16 msgKind,
-        zchar[5] Px,
+Eval vm_compute in ("<<<M1942>>>" ++ check (runes_of_ascii "// packet A { u8 x, }
+packet string_ {
+    @tag(4294967296)
+    @calculatedFrom(""" ++ [128512]%N ++ runes_of_ascii """)
+    @calculatedFrom(""1"")
+    leftPad @lengthOf(int) ``,
+    repeat Packet {
+        zchar[0] options1 `line1
+                line2`,
     },
-    i16 f1,
-    repeat f64 Side2,
-    string Acct,
-}
-packet Cancel {
-    zchar[4] clOrdID,
-    string seqNo,
-    Leg,
-    @leftPad('0') char[11] OrderId,
-}
-packet Quote {
-    repeat char[4] sym,
-    f64 OrderId,
-    repeat Leg,
-    repeat i64 f1,
-    int16 Note,
-    zchar[3] count,
-}
-root packet Ack {
-    @leftPad(' ') char[10] sym,
-    InPx60 {
-        Cancel,
-        repeat char[1] f1,
-        string Tail,
-        repeat InNote55 {
-            int8 count,
-            f64 f1,
-            repeat Cancel,
+    @calculatedFrom("""")
+    float32 u8x,
+    float,
+    i64_ {
+        packetx {
+            i16 falsey,
+            f32 repeatCount `{ , }`,
         },
-        char[] tag7,
-        repeat string msgKind,
+        repeat char[0] i8i8,
+        string o @lengthOf(options1),
     },
-    u8 lastPx,
-    match lastPx as Body {
-        152 : Quote,
-        173 : Cancel,
-        4 : Leg,
+    i64_ @calculatedFrom(""a\""b"") `a\`,
+    @rightPad()
+    @lengthOf(packetx)
+    match matchKey as stringy {
+        ""a	b"" : body,
     },
-    u16 Ref @calculatedFrom(""CR\
-C32""),
-}
-")).
-Eval vm_compute in ("<<<M1581>>>" ++ check (runes_of_ascii "options {
-    FixedStringPadFromLeft = true;
-    FixedStringPadChar = '0';
-}
-
-packet Leg {
-    repeat InSym93 {
-        zchar[3] Acct,
-        string Side2,
-        i32 Flags,
-        f32 Note,
-        i32 msgKind,
-    },
-    f64 Note,
-    uint16 Px,
-}
-
-packet Quote {
-    zchar[2] OrderId,
-}
-
-packet Ack {
-    repeat string lastPx,
-    zchar[4] price,
-    uint32 OrderId,
-    Quote,
-    int8 Acct,
-}
-
-packet Fill {
-    repeat Leg,
-    @rightPad('0')
-    char[11] Note,
-    f64 Px,
-    @rightPad('\x00')
-    char[5] Flags,
-    zchar[9] x,
-    string msgKind,
-}
-
-root packet Order {
-    Leg,
-    repeat Ack,
-    @rightPad('\x00')
-    char[3] Side2,
-    repeat char[1] seqNo,
-    u16 clOrdID,
-    match clOrdID as Body {
-        198 : Leg,
-        23 : Quote,
-        13 : Ack,
-        159 : Fill,
-    },
-    u32 venue @calculatedFrom(""CRC32""),
-}")).
-Eval vm_compute in ("<<<M1353>>>" ++ check (runes_of_ascii "  options
-{ 
-StringPrefixLenType = u8 ; ArrayPrefixLenType= 
-u32
-; 
-FixedStringPadFromLeft
-
-=true ; FixedStringPadChar
-=' '
-
-; }packet 
-Leg 
-{}
-	packet  Heartbeat  {
-    zchar[ 6 ]	msgKind
-
-,
-@rightPad  ('0')
-char[ 3
-    ]	Qty , 
-zchar[
-    9 ]	Side2
-
-    , i8 Acct
-
-    ,
-}
-packet Logout
-	{
-
-int8  x,
-
-} packet	Order
-
-{char[]
-
-Acct
-	,
-	zchar[ 8 ] count
-	,
-
-    u32 OrderId , uint8  lastPx ,  u16
-clOrdID, zchar[7
-    ]	Note,
-    }root
-    packet
-    Reject
-
-{
-	@leftPad (  ' ')
-
-    char[
-
-    8
-
-    ]
-Side2
-
-    ,
-
-i8
-	clOrdID
-    ,repeat
-f32 
-x
-,	u32
-
-    lastPx ,  match lastPx 
-as
-
-    Body
-    {
-[
-
-30 
-,147 ]
-    : Heartbeat,134 : Leg , 183
-	:  Logout ,
-
-40: Order ,
-    } , 
-u16
-
-    Ref
-    @calculatedFrom(	""CRC32"") 
-,
-	}")).
-Eval vm_compute in ("<<<M1862>>>" ++ check (runes_of_ascii "root
-    packet u8x  {
-    char 
-        // trailing space 
+    // " ++ [27880; 37322]%N ++ runes_of_ascii "
+    @lengthOf(u128)
+    @calculatedFrom(""`tick`"")
+    @rightPad()
     // @lengthOf(
-		i64_  ,
-repeat
-
-char[1
-
-] 
-Z9_ 
-,@tag( 
-//x
-// " ++ [128512]%N ++ runes_of_ascii " emoji
-42)
-repeat
-
-Logon
-MetaDataX, 
-@leftPad 
-    //
-    () 
-Foo
-@lengthOf(As 
-)	// " ++ [128512]%N ++ runes_of_ascii " emoji
-  ,  match
-
-    u128 
-as//	t
-calculatedFrom { // " ++ [128512]%N ++ runes_of_ascii " emoji
-    4294967296
-
-:
-    BodyLength 
-,	3  : A
-    ,  //
-
-	[
-    4294967296 //
-		, ""packet""
-	]
-
-: 
-o ,
-65535:
-roots } ,
-    repeat  Pad	{
-uint64
-x @calculatedFrom(
-    """ ++ [128512]%N ++ runes_of_ascii """
-
-) 
-,
-    a1@lengthOf(
-    As )
-	`line1
-line2`
-    , repeat	string_ {
-repeat  uint32
-
-_x
-	,
-f32 MetaDataX
-
-`it's` 
-	//	t
-    	,  u64
-    As@lengthOf(	crc
-) ,
-} , 
-roots
-	, } ,
-zchar[00
-
-    ] 	 // @lengthOf(
-	  u128
-,
-	} 
-//	t
- 
-")).
-Eval vm_compute in ("<<<M87>>>" ++ check (runes_of_ascii "root packet matchKey{ match	Foo as Z9_ {// c
-[ ""x y"" , ""1"" ,
-    007
-, 7 ]: pack,
-""`tick`"" :
-u128 ,""a	b"" :msg_type,[
-//
-//
-00 ,	65535
-] : a1, ""it's"" :Foo
-    , // " ++ [128512]%N ++ runes_of_ascii " emoji
-[ //x
-""""
-] : u, } ,
-} packet calculatedFrom // c
-{msg_type {
-    T @calculatedFrom( ""\n"" ) ,float64 i8i8, As`
-`, u32 rootA @lengthOf(
-// c
-// `tick` ""quote"" 'q'
-float
-) ,}
-, }
-    packet
-    // " ++ [27880; 37322]%N ++ runes_of_ascii "
-    x_y_z
-{@tag( //x
-0 ) i64_
-    // " ++ [27880; 37322]%N ++ runes_of_ascii "
-    @lengthOf(
-    //
-    MetaDataX
-) ,	}packet A { @calculatedFrom( ""a\\"" )@calculatedFrom(""abc"" ) _x
-u	`say ""hi""` ,
-    } options
-    // `tick` ""quote"" 'q'
-    { // trailing space 
-metadata = ""a\\"" ; // a // b
-}")).
-Eval vm_compute in ("<<<M1116>>>" ++ check (runes_of_ascii "// top
-MetaData // c0
-Packet // c1
-{ // c2
-} // c3
-packet // c4
-charz // c5
-{ // c6
-Foo // c7
-asx // c8
-`it's` // c9
-, // c10
-@lengthOf( // c11
-T // c12
-) // c13
-@calculatedFrom( // c14
-"""" // c15
-) // c16
-@calculatedFrom( // c17
-""x y"" // c18
-) // c19
-zchar[ // c20
-007 // c21
-] // c22
-repeatCount // c23
-@lengthOf( // c24
-int // c25
-) // c26
-`a\` // c27
-, // c28
-i8 // c29
-string_ // c30
-, // c31
-repeat // c32
-options1 // c33
-Pad // c34
-, // c35
-} // c36
-root // c37
-packet // c38
-Packet // c39
-{ // c40
-int8 // c41
-float // c42
-`doc` // c43
-, // c44
-} // c45
-")).
-Eval vm_compute in ("<<<M1340>>>" ++ check (runes_of_ascii "options {
-    ArrayPrefixLenType = u64;
-    FixedStringPadFromLeft = true;
-    FixedStringPadChar = '0';
-}
-packet Quote {
-}
-packet Ack {
-    repeat InNote66 {
-        u8 pad0,
+    repeat falsey string_ `" ++ [28040; 24687; 31867; 22411]%N ++ runes_of_ascii "`,
+    string As `it's`,
+    @calculatedFrom(""" ++ [28040; 24687]%N ++ runes_of_ascii """)
+    repeat rootA {
+        float64 body,
     },
-}
-packet Reject {
-}
-root packet Order {
-    Quote,
-    repeat Reject,
-    string venue,
-    string seqNo,
-    uint32 Ref,
-    u16 lastPx,
-    u32 clOrdID @lengthOf(Body),
-    match lastPx as Body {
-        190 : Reject,
-        186 : Quote,
-        22 : Ack,
-    },
-    u16 Flags @calculatedFrom(""CR\
-C32""),
-}
-")).
-Eval vm_compute in ("<<<M1726>>>" ++ check (runes_of_ascii "
-// top
-      options  // c0
-  { // c1
-
-f32a	// c2
-=  // c3
-0 	 // c4
-	}  // c5
-packet// c6
-		trueish 	 // c7
-	  { 	 // c8
-  	}// c9
-	MetaData 	 // c10
-_x  // c11
-	  {	// c12
-    	char[ 	 // c13
-    0123456789 	 // c14
-      ] 	 // c15
-
-zchar  // c16
-
-, 	 // c17
-	string // c18
-  crc	// c19
-    , 	 // c20
-	char[	// c21
-		1	// c22
-
-  ] // c23
-  options1 // c24
-	  ,	// c25
-	uint8  // c26
-    repeatCount	// c27
-    	, // c28
-    } 	 // c29
-")).
-Eval vm_compute in ("<<<M306>>>" ++ check (runes_of_ascii "packet rootA { @tag(0123456789 ) options1 {int32 uint8x
-    `u8 x,`
-    , u8x
-//x
-// packet A { u8 x, }
-{
-    match Header as
-    metadata {[	10 ]
-: pack } ,
-    } , f64 // `tick` ""quote"" 'q'
-chars , }
-, @lengthOf( body ) u64
-// @lengthOf(
-//
-Z9_ , }
-MetaData repeatCount
-    {zchar[10 ] string_ , f64 A
-, u32 BodyLength , zchar[ 00 ] uint8x ,
-    trueish
-leftPad,char[ 65535  ] rootA	, }
-//	t
-")).
-Eval vm_compute in ("<<<M118>>>" ++ check (runes_of_ascii "packet As{@leftPad ( )
-    char[ 0	]
-Logon, char[	0
-]
-Z9_@calculatedFrom(	""abc""
-    // c
-    ) ,  @tag( 4294967296 )
-    i64 matchKey @calculatedFrom(
-    ""// no comment""//
-)`two words` ,i16 A
-, }// " ++ [27880; 37322]%N ++ runes_of_ascii "
-packet T { zchar[
-3 ] tag// packet A { u8 x, }
-@lengthOf(
-    chars) , } packet// " ++ [128512]%N ++ runes_of_ascii " emoji
-BodyLength  {calculatedFrom @lengthOf( body )
-`
-`	, } // a // b")).
-Eval vm_compute in ("<<<M1549>>>" ++ check (runes_of_ascii "MetaData T {
-    a1 Packet,
-    uint8x Pad `" ++ [233]%N ++ runes_of_ascii "`,
-    a1 MetaDataX,
-    zchar[00] metadata `u8 x,`,
-    Pad x `
-        `,
-    i8 u8x,
 }
 
 options {
-    As = false;
+    zchar = true;
+    i8i8 = 3;
 }
 
-root packet options1 {
-    @calculatedFrom(""// no comment"")
-    @lengthOf(_x)
-    @tag(007)
-    repeat f32 i8i8 `" ++ [233]%N ++ runes_of_ascii "`,
-    @rightPad(' ')
-    repeat Pad,
+packet leftPad {
+    @calculatedFrom("""")
+    //x
+    @leftPad(' ')
+    @calculatedFrom(""abc"")
+    repeat MetaDataX {
+        char[] Pad,
+        body @lengthOf(Foo),
+        uint64 i8i8,
+        char[42] options1 @calculatedFrom(""x y""),
+    },
+}
+
+packet stringy {
+    @calculatedFrom(""" ++ [28040; 24687]%N ++ runes_of_ascii """)
+    BodyLength len,
+    @lengthOf(u)
+    i8i8 metadata,
+    @calculatedFrom(""a\\"")
+    //x
+    packetx,
+    f64 i8i8 @lengthOf(Header),
+    metadata `
+        `,
+    @lengthOf(int)
+    repeat falsey,
+    repeat char[] trueish,
 }")).
-Eval vm_compute in ("<<<M1462>>>" ++ check (runes_of_ascii "
+Eval vm_compute in ("<<<M225>>>" ++ check (runes_of_ascii "packet T
+    // " ++ [128512]%N ++ runes_of_ascii " emoji
+    { match repeatCount as
+Packet {
+    ""packet"" : msg_type , 00 :
+    Foo
+    ,""" ++ [128512]%N ++ runes_of_ascii """ : trueish, """": repeatCount
+    [ // packet A { u8 x, }
+4294967296 , 65535 ] :	u ,	}, @calculatedFrom( ""a\\"" )
+    float32 len @lengthOf(// " ++ [128512]%N ++ runes_of_ascii " emoji
+string_
+    ), stringy Pad, roots{ repeat x_y_z
+    `// not a comment`
+, T
+`" ++ [233]%N ++ runes_of_ascii "` , }, @tag(
+007 )  _x
+{// " ++ [128512]%N ++ runes_of_ascii " emoji
+char[] body
+@calculatedFrom( """ ++ [233]%N ++ runes_of_ascii "t" ++ [233]%N ++ runes_of_ascii """
+    //	t
+    ) ,repeat Pad// packet A { u8 x, }
+``
+// c
+/// triple
+, }
+    //x
+    , match	u as packetx{// `tick` ""quote"" 'q'
+[ ""// no comment"" ,
+007]	: T
+, [  ""\" ++ [233]%N ++ runes_of_ascii """// " ++ [27880; 37322]%N ++ runes_of_ascii "
+] :// trailing space 
+u8x } , @rightPad( ) int8 _x , @lengthOf(
+A	)match/// triple
+crc
+as metadata { [ 00,
+    //	t
+    ""a\""b"" ,3
+    , 1
+    ,
+10 ] : Packet , //	t
+[
+4294967296	, ""abc"" , """"] // @lengthOf(
+:
+// `tick` ""quote"" 'q'
+// " ++ [27880; 37322]%N ++ runes_of_ascii "
+a1 , """ ++ [28040; 24687]%N ++ runes_of_ascii """ // `tick` ""quote"" 'q'
+:
+    repeatCount  , } , }options { }MetaData Header
+{  trueish Pad ,
+    } MetaData Z9_ { char[]
+metadata ,
+// " ++ [128512]%N ++ runes_of_ascii " emoji
+// packet A { u8 x, }
+Header A
+`doc`
+// a // b
+// a // b
+, //x
+uint32 // " ++ [27880; 37322]%N ++ runes_of_ascii "
+packetx ,
+int16 uint8x
+    //
+    , Header// @lengthOf(
+leftPad
+    , // packet A { u8 x, }
+}
+// trailing space 
+")).
+Eval vm_compute in ("<<<M1340>>>" ++ check (runes_of_ascii "
 
-  options {
-
-LittleEndian  = true ;  }
-packet Logon
+  options
 {
-u8	x	, } 
-packet 
-Logout
-{ 
-u16	reason	,}  root  packet
+FixedStringPadFromLeft =
 
-Frame {u16
-	Kind
-,u16
-    Kind2 ,
-    match
-Kind 
-as Body {1
-: Logon ,	[2  ,
-	3,4]
-:	Logout ,
+true
+    ;	FixedStringPadChar
+=  '0'	;
+    } packet	Leg
 
-100  : Logon	,
-    }  ,
-match Kind2 as
+    { InPrice0
+    { repeat string
 
-Trailer
-	{
+    clOrdID  ,	int16 msgKind
+,
+zchar[
+	5
+    ]	Px,
+    } ,
+i16
 
-0 :
-	Logout	,
+    f1
+,
+repeat
+f64 Side2
+,string  Acct ,	} packet
 
-} 
+Cancel	{
+	zchar[
+    4
+
+]clOrdID,
+	string
+    seqNo
+, Leg,
+@leftPad  (
+'0'
+	)
+    char[
+    11] 
+OrderId ,
+	} packet Quote{repeat
+char[
+    4  ]
+sym
+    ,
+
+f64 OrderId ,repeat
+	Leg
+,
+
+    repeat i64
+    f1
+	, int16
+Note,
+zchar[
+
+    3]
+count 
+,
+}  root
+
+packet Ack
+
+    {  @leftPad
+(' '
+	)char[
+
+10
+    ]  sym ,
+
+InPx60
+
+{
+
+Cancel
+,repeat	char[ 
+1  ]
+
+    f1 , 
+string
+    Tail
+    , 
+repeat  InNote55
+    {
+    int8
+    count	, 
+f64 
+f1
+,repeat
+    Cancel
+    ,},
+
+    char[]tag7
+	, 
+repeat string
+    msgKind
+
+    ,
+
+    }
+
+, u8 
+lastPx, match 
+lastPx as  Body
+{152 
+:  Quote  , 
+173
+:Cancel,	4:
+    Leg 
 ,}
 
+    ,
+u16
+Ref@calculatedFrom(
+    ""CRC32""
+	)
+,	}
+
 ")).
-Eval vm_compute in ("<<<M1274>>>" ++ check (runes_of_ascii "// top
-options
-    // c0
-{ // c1a
-  // c1b
-FixedStringPadFromLeft
-    // c2
-= // c3
+Eval vm_compute in ("<<<M1377>>>" ++ check (runes_of_ascii "// top
+options // c0a
+  // c0b
+{ LittleEndian // c2
+= true ; // c5
+} // c6a
+  // c6b
+packet
+    // c7
+Logon // c8a
+  // c8b
+{ u8 x // c11
+, } // c13
+packet // c14
+Logout { u16 // c17a
+  // c17b
+reason
+    // c18
+, // c19a
+  // c19b
+} // c20
+root
+    // c21
+packet // c22a
+  // c22b
+Frame // c23a
+  // c23b
+{ // c24a
+  // c24b
+u8
+    // c25
+Kind // c26a
+  // c26b
+, // c27
+u8 // c28
+Kind2 ,
+    // c30
+match Kind as // c33
+Body
+    // c34
+{ // c35a
+  // c35b
+1 // c36
+:
+    // c37
+Logon // c38
+, // c39a
+  // c39b
+[ // c40a
+  // c40b
+2 // c41
+,
+    // c42
+3 // c43
+, 4 ]
+    // c46
+: // c47
+Logout
+    // c48
+, // c49a
+  // c49b
+100 // c50
+:
+    // c51
+Logon // c52a
+  // c52b
+,
+    // c53
+} , // c55
+match // c56a
+  // c56b
+Kind2 as
+    // c58
+Trailer // c59a
+  // c59b
+{ // c60
+0 // c61
+:
+    // c62
+Logout // c63a
+  // c63b
+, } , // c66a
+  // c66b
+} ")).
+Eval vm_compute in ("<<<M1759>>>" ++ check (runes_of_ascii "
+
+  options{ StringPrefixLenType
+=
+
+    u8
+
+;
+
+ArrayPrefixLenType 
+=	u32
+    ;
+FixedStringPadFromLeft =
+
 true
-    // c4
-; // c5a
-  // c5b
-}
-    // c6
-root // c7
-packet P {
-    // c10
-char[ // c11a
-  // c11b
-4 // c12a
-  // c12b
-] z // c14
-,
-    // c15
-} // c16a
-  // c16b
-")).
-Eval vm_compute in ("<<<M351>>>" ++ check (runes_of_ascii "MetaData leftPad// packet A { u8 x, }
-{ string u128 `say ""hi""` //
-, // c
-A packetx
-    //	t
-    , char[
-//
-// packet A { u8 x, }
-42
+    ;
+	FixedStringPadChar 
+=
+' '	;
+
+    } packet
+Leg
+{ } packet
+Heartbeat
+
+{
+    zchar[
+
+6
 ]
-leftPad
-    `tab	here` // trailing space 
-,i16 crc ,
-string uint8x // a // b
+msgKind ,
+
+    @rightPad( '0'
+
+    )	char[ 3
+    ]
+Qty
+
+,	zchar[
+9	] Side2 
 ,
-}")).
-Eval vm_compute in ("<<<M1788>>>" ++ check (runes_of_ascii "// top
-    root// c0a
+	i8 Acct
 
-// c0b
-    packet P  { 
-  // c3
+    ,
+}  packet
+    Logout	{
+	int8 
+x
+
+, } 
+packet
+Order 
+{ char[]Acct 
+,
+zchar[
+8
+]	count 
+,	u32
+OrderId,
+
+uint8 lastPx
+
+    ,
     u16
-// c4
 
-a 
-    // c5
-	, 
-// c6
-  u32// c7a
+clOrdID,  zchar[
+7
 
-	// c7b
+    ]Note
+,
+	}
+root
+    packet Reject {@leftPad (' ' ) char[
+8 ]
+    Side2 ,
 
-Sum// c8
-@calculatedFrom(  // c9a
-// c9b
-""CRC32""
-)
+    i8
+clOrdID  , 
+repeat 
+f32
+
+    x , u32 lastPx
+
+,
+match
+    lastPx
+
+as Body{ [ 30  ,
+	147 ] : Heartbeat ,134 : Leg
+	,	183 
+:
+	Logout
+	,
+    40 
+:
+	Order ,	}	,
+u16	Ref
+@calculatedFrom(
+    ""CRC32""	)
+
+    , } ")).
+Eval vm_compute in ("<<<M1797>>>" ++ check (runes_of_ascii "packet options1 {
+    @leftPad('0')
+    @rightPad('\x00')
+    @tag(255)
+    /// triple
+    repeat string As `
+    `,
+    @calculatedFrom("""")
+    @calculatedFrom(""x y"")
+    a1 {
+        Foo {
+            trueish {
+                tag @lengthOf(i8i8) `doc`,
+            },
+            zchar[00] f32a @lengthOf(calculatedFrom),
+            repeat zchar[1] stringy `{ , }`,
+        },
+        uint64 repeatCount @lengthOf(asx),
+        char[42] lengthOf @calculatedFrom(""packet""),
+        char[10] calculatedFrom @lengthOf(BodyLength),
+    },
+    asx `// not a comment`,
+}
+
+options {
+    matchKey = """ ++ [128512]%N ++ runes_of_ascii """
+    falsey = ""a\""b"";
+    A = ""CRC32""
+    msg_type = """ ++ [233]%N ++ runes_of_ascii "t" ++ [233]%N ++ runes_of_ascii """;
+}
+
+MetaData o {
+}
+
+packet Pad {
+}")).
+Eval vm_compute in ("<<<M1768>>>" ++ check (runes_of_ascii "MetaData//	t
+    body
+    { 
+T
+	calculatedFrom
+
+    , 
+string f32a	`line1
+line2`
+    ,  leftPad BodyLength
+`tab	here`
+,
+
+    }options {
+}  MetaData
+
+options1
+
+    {
+
+    char[
+3 
+]
+    MetaDataX 
+	// " ++ [128512]%N ++ runes_of_ascii " emoji
+	/// triple
+  	`" ++ [28040; 24687; 31867; 22411]%N ++ runes_of_ascii "`
+    ,
+    BodyLength
+x `
+`
 	,
 
-    }	// c13
- 
-")).
-Eval vm_compute in ("<<<M1683>>>" ++ check (runes_of_ascii "root packet _x {
-    uint32 trueish @calculatedFrom(""1"") `crlf
-        line`,
+u16
+    tag `say ""hi""`
+
+    , u8 float ,  float32 As `
+`
+	,i8i8 
+Z9_
+`
+`	,  }packet u {@tag( 42 )	options1 // c
+    o
+	`crlf
+line`
+,
+    @calculatedFrom(
+
+""`tick`""
+
+// packet A { u8 x, }
+// a // b
+
+  )
+
+repeat
+char[]	a1 
+	    //x
+	,
 }
 
-//
-packet Header {
-    repeat u64 stringy `// not a comment`,
-    float32 msg_type,
-}")).
-Eval vm_compute in ("<<<M418>>>" ++ check (runes_of_ascii "packet uint8x
-{ match pack
-    @rightPad msg_type	{
-    0123456789 :	float
+options
+	{	uint8x
+	=	true
+A
+	= // `tick` ""quote"" 'q'
+
+7	;	// packet A { u8 x, }
+
+	len
+= """ ++ [128512]%N ++ runes_of_ascii """
+} ")).
+Eval vm_compute in ("<<<M1345>>>" ++ check (runes_of_ascii "options {
+    LittleEndian = false;
+    ArrayPrefixLenType = u8;
+    FixedStringPadFromLeft = true;
+    FixedStringPadChar = '0';
 }
-,
-} packet //	t
-a1
-    { } options {packetx
-    = '\x00'	; u128= ""a	b""  ; }
+packet Heartbeat {
+    string lastPx,
+    uint8 Qty,
+    i64 Acct,
+    char[4] Ref,
+}
+packet Fill {
+    uint8 Ref,
+    Heartbeat,
+    f32 OrderId,
+    repeat f32 x,
+}
+root packet Order {
+    zchar[2] OrderId,
+    zchar[2] Acct,
+    zchar[1] Note,
+    zchar[9] Qty,
+    string price,
+    string tag7,
+    u32 x,
+    match x as Body {
+        123 : Fill,
+        112 : Heartbeat,
+    },
+    u32 seqNo @calculatedFrom(""CR\
+C32""),
+}
 ")).
-Eval vm_compute in ("<<<M523>>>" ++ check (runes_of_ascii "packet uint8x
+Eval vm_compute in ("<<<M163>>>" ++ check (runes_of_ascii "options { As = // trailing space 
+zchar[ 4294967296] ; } //	t
+packet len // packet A { u8 x, }
+{ @lengthOf(
+_x) match
+    // c
+    lengthOf
+    as
+//
+// `tick` ""quote"" 'q'
+string_// c
+{
+    [ 4294967296 ]: i64_ ""a	b"": o
+,
+}
+, leftPad
+    @calculatedFrom( ""`tick`""	)
+// trailing space 
+// `tick` ""quote"" 'q'
+,@leftPad( '\x00' ) repeat charz /// triple
+msg_type
+,
+repeat i8
+Foo , }packet msg_type {
+//x
+// @lengthOf(
+@leftPad (
+'0'
+)
+u64 repeatCount @calculatedFrom(
+""" ++ [28040; 24687]%N ++ runes_of_ascii """) ,// packet A { u8 x, }
+}
+")).
+Eval vm_compute in ("<<<M48>>>" ++ check (runes_of_ascii "root	packet Logon { @calculatedFrom( """" ) @lengthOf( int ) @tag( 3
+) match _x
+as // a // b
+i64_ { 10:asx
+// `tick` ""quote"" 'q'
+/// triple
+""" ++ [128512]%N ++ runes_of_ascii """ : crc ,[ 0
+,
+007
+] : float  ,// trailing space 
+}
+    , repeat //	t
+uint16
+leftPad  ,
+    }
+    // " ++ [27880; 37322]%N ++ runes_of_ascii "
+    packet charz
+{  } MetaData
+int {
+//
+// trailing space 
+zchar[ 4294967296 ]matchKey
+,
+asx rootA
+    `doc`
+, Foo string_ `// not a comment`
+,
+    char[]u8x , // `tick` ""quote"" 'q'
+roots
+float , }
+")).
+Eval vm_compute in ("<<<M1334>>>" ++ check (runes_of_ascii "options
+{ 
+LittleEndian
+=  false ;
+StringPrefixLenType 
+= u8
+
+    ; ArrayPrefixLenType=	u64
+; 
+FixedStringPadFromLeft = false ; FixedStringPadChar
+
+    =' ' ;	}
+	packet  Reject
+
+    {repeat	char[
+    4] seqNo , string  Px , 
+}	root
+    packet Trade  {
+    @rightPad
+	(
+
+'0')
+	char[ 
+2
+
+    ]
+	msgKind  ,
+    repeat
+f64 price,InAcct79 { repeat Reject , zchar[  7]
+	OrderId
+	, }
+	,Reject	,}
+")).
+Eval vm_compute in ("<<<M1807>>>" ++ check (runes_of_ascii "packet a1 {
+    @calculatedFrom(""`tick`"")
+    uint32 charz `crlf
+    line`,
+    // c
+    //x
+    a1 `tab	here`,
+}
+
+options {
+    // " ++ [27880; 37322]%N ++ runes_of_ascii "
+    // " ++ [128512]%N ++ runes_of_ascii " emoji
+    stringy = 255;
+    metadata = 4294967296
+    pack = string;
+    crc = string;
+}
+
+root packet crc {
+    @tag(42)
+    @calculatedFrom(""abc"")
+    @rightPad('0')
+    u128 u8x,
+    @lengthOf(len)
+    uint16 int,
+}")).
+Eval vm_compute in ("<<<M1745>>>" ++ check (runes_of_ascii "packet float {
+    // c2
+    @rightPad()
+    // c5a
+    // c5b
+    rootA @lengthOf(trueish),
+    // c10
+    stringy @lengthOf(matchKey),// c15a
+    // c15b
+    char[4294967296] pack @lengthOf(uint8x),
+    // c23
+}// c24
+
+root packet trueish {
+    // c28
+    repeat uint64 u128 `line1
+        line2`,
+    // c33
+}
+// c34")).
+Eval vm_compute in ("<<<M1381>>>" ++ check (runes_of_ascii "options
+{
+
+    LittleEndian= 
+true; }  packet
+Logon	{	u8	x 
+,
+
+string
+	user
+,}
+	packet 
+Logout 
+{u16
+    reason  ,
+
+    }packet Empty
+
+    { }
+    root
+
+packet
+Frame
+{
+    u16
+MsgType
+,
+    u8  BodyLen @lengthOf(Body )  ,
+	u8
+flags ,	Logon
+Body ,
+	u32 
+trailer ,
+
+    } ")).
+Eval vm_compute in ("<<<M1504>>>" ++ check (runes_of_ascii "MetaData BodyLength {
+    uint16 leftPad `" ++ [233]%N ++ runes_of_ascii "`,
+    uint8x asx,
+    len lengthOf `// not a comment`,
+    string uint8x `doc`,
+}
+
+options {
+    i8i8 = 0
+    lengthOf = 0123456789;
+}
+
+packet uint8x {
+    @lengthOf(pack)
+    float64 u8x @lengthOf(asx),
+}")).
+Eval vm_compute in ("<<<M1328>>>" ++ check (runes_of_ascii "packet
+
+    Logon
+    {
+
+string
+
+    user
+,} root	packet	Frame{ u8 K 
+,
+    match  K 
+as Body
+	{ 1
+:
+    Logon ,2
+: Logout  ,
+
+}  ,
+	Tail, }
+
+    packet
+Logout
+	{ u16	reason ,
+
+}
+	packet  Tail
+{u32	crc
+    ,  }
+")).
+Eval vm_compute in ("<<<M38>>>" ++ check (runes_of_ascii "options
+{ falsey
+    /// triple
+    = false ; falsey=
+    //
+    int16// `tick` ""quote"" 'q'
+;
+    // `tick` ""quote"" 'q'
+    A =
+    // trailing space 
+    u32  ;
+    trueish	= 1  ;
+    }
+")).
+Eval vm_compute in ("<<<M1644>>>" ++ check (runes_of_ascii "options {
+    As = true
+    MetaDataX = true
+}
+
+packet A {
+    repeat calculatedFrom `say ""hi""`,
+}
+
+MetaData crc {
+    u crc,
+    uint32 body,
+    i16 stringy `u8 x,`,
+}")).
+Eval vm_compute in ("<<<M396>>>" ++ check (runes_of_ascii "packet uint8x uint8x
 { match pack
     as msg_type	{
     0123456789 :	float
@@ -776,7 +861,18 @@ Eval vm_compute in ("<<<M523>>>" ++ check (runes_of_ascii "packet uint8x
 } packet //	t
 a1
     { } options {packetx
-    = '\x00'	; u128= MetaData  ; }
+    = '\x00'	; u128= ""a	b""  ; }
+")).
+Eval vm_compute in ("<<<M543>>>" ++ check (runes_of_ascii "packet uint8x
+{ mat'1'ch pack
+    as msg_type	{
+    0123456789 :	float
+}
+,
+} packet //	t
+a1
+    { } options {packetx
+    = '\x00'	; u128= ""a	b""  ; }
 ")).
 Eval vm_compute in ("<<<M482>>>" ++ check (runes_of_ascii "packet uint8x
 { match pack
@@ -789,7 +885,7 @@ a1
     { } { options packetx
     = '\x00'	; u128= ""a	b""  ; }
 ")).
-Eval vm_compute in ("<<<M472>>>" ++ check (runes_of_ascii "packet uint8x
+Eval vm_compute in ("<<<M473>>>" ++ check (runes_of_ascii "packet uint8x
 { match pack
     as msg_type	{
     0123456789 :	float
@@ -797,10 +893,10 @@ Eval vm_compute in ("<<<M472>>>" ++ check (runes_of_ascii "packet uint8x
 ,
 } packet //	t
 a1
-    } { options {packetx
+    ] } options {packetx
     = '\x00'	; u128= ""a	b""  ; }
 ")).
-Eval vm_compute in ("<<<M525>>>" ++ check (runes_of_ascii "packet uint8x
+Eval vm_compute in ("<<<M530>>>" ++ check (runes_of_ascii "packet uint8x
 { match pack
     as msg_type	{
     0123456789 :	float
@@ -809,12 +905,12 @@ Eval vm_compute in ("<<<M525>>>" ++ check (runes_of_ascii "packet uint8x
 } packet //	t
 a1
     { } options {packetx
-    = '\x00'	; u128= ""a	b""   }
+    = '\x00'	; u128= ""a	b""  ; 
 ")).
-Eval vm_compute in ("<<<M405>>>" ++ check (runes_of_ascii "packet uint8x
-{  pack
+Eval vm_compute in ("<<<M440>>>" ++ check (runes_of_ascii "packet uint8x
+{ match pack
     as msg_type	{
-    0123456789 :	float
+    0123456789 :	
 }
 ,
 } packet //	t
@@ -822,15 +918,15 @@ a1
     { } options {packetx
     = '\x00'	; u128= ""a	b""  ; }
 ")).
-Eval vm_compute in ("<<<M423>>>" ++ check (runes_of_ascii "packet uint8x
+Eval vm_compute in ("<<<M490>>>" ++ check (runes_of_ascii "packet uint8x
 { match pack
-    as ,	{
+    as msg_type	{
     0123456789 :	float
 }
 ,
 } packet //	t
 a1
-    { } options {packetx
+    { } options {
     = '\x00'	; u128= ""a	b""  ; }
 ")).
 Eval vm_compute in ("<<<M430>>>" ++ check (runes_of_ascii "packet uint8x
@@ -844,195 +940,231 @@ a1
     { } options {packetx
     = '\x00'	; u128= ""a	b""  ; }
 ")).
-Eval vm_compute in ("<<<M1908>>>" ++ check (runes_of_ascii "packet
-	A 
-{	match k
+Eval vm_compute in ("<<<M1298>>>" ++ check (runes_of_ascii "packet
+A
+{ 
+u8 a,
+}
 
-as 
-n{[
+packet
+    B {
 
-""a"",	""bb""  ,
-
-""c c""
-	, ""d""	,
-	""e""	,""f""	,
-
-""g"" 
-, ""h""
+u16  b
+,} 
+root	packet	P
+{ u8
+K
 
 ,
-""i"" ,""j"",
-""k"" 
-]  : B 2 :
-    C }
-    ,
+
+    match	K
+
+as M	{1
+    :
+A,
+
+1	: 
+B 
+, }
+,
+
     }
+
 ")).
-Eval vm_compute in ("<<<M1585>>>" ++ check (runes_of_ascii "root packet lengthOf {
-    @leftPad(' ')
-    repeat char MetaDataX,
+Eval vm_compute in ("<<<M1585>>>" ++ check (runes_of_ascii "options {
 }
 
-MetaData Pad {
-    msg_type rootA `// not a comment`,
+MetaData u8x {
+    uint8x body `crlf
+    line`,
+    calculatedFrom body,
+}
+
+options {
+}
+
+root packet options1 {
 }")).
-Eval vm_compute in ("<<<M1144>>>" ++ check (runes_of_ascii "MetaData
-// c
-leftPad { chars MetaDataX , } packet repeatCount { char[ 255 ] uint8x `" ++ [233]%N ++ runes_of_ascii "` , } MetaData pack { As Foo , }")).
-Eval vm_compute in ("<<<M1176>>>" ++ check (runes_of_ascii "MetaData leftPad { chars MetaDataX , } packet repeatCount { char[ 255 ] uint8x `" ++ [233]%N ++ runes_of_ascii "` , }
-// c
-MetaData pack { As Foo , }")).
-Eval vm_compute in ("<<<M961>>>" ++ check (runes_of_ascii "packet A {
-    u16 len @lengthOf(body) `tab
-	x`,
-    u32 crc @calculatedFrom(""CRC32"") `tab
-	x`,
-    string body,
-}")).
-Eval vm_compute in ("<<<M962>>>" ++ check (runes_of_ascii "packet A {
-    Inner {
-        u8 x `tab
-	x`,
-        Deep {
-            u8 y `tab
-	x`,
-        },
-    },
-}")).
-Eval vm_compute in ("<<<M158>>>" ++ check (runes_of_ascii "
-MetaData charz { As u128 , Logon options1 `say ""hi""` ,
-    zchar[ 0
-// @lengthOf(
-//
-]Logon ,
-    }
-")).
-Eval vm_compute in ("<<<M634>>>" ++ check (runes_of_ascii "
-packet
-    asx {matc@lengthOfh u128 as lengthOf
-{
-//	t
-// `tick` ""quote"" 'q'
-255 : x ,
-    } ,	}")).
-Eval vm_compute in ("<<<M872>>>" ++ check (runes_of_ascii "packet A {
-  match k as n {
-    [""a"", 22, ""c c"", 4, ""e"", 66, ""g"", 8, ""i""] : B
-    2 : C
-  },
-}")).
-Eval vm_compute in ("<<<M603>>>" ++ check (runes_of_ascii "
-packet
-    asx {match u128 as lengthOf
-{
-//	t
-// `tick` ""quote"" 'q'
-255 : x x ,
-    } ,	}")).
-Eval vm_compute in ("<<<M584>>>" ++ check (runes_of_ascii "
-packet
-    asx {match u128 as {
-lengthOf
-//	t
-// `tick` ""quote"" 'q'
-255 : x ,
-    } ,	}")).
-Eval vm_compute in ("<<<M625>>>" ++ check (runes_of_ascii "
-packet
-    asx {match u128 as lengthOf
-{
-//	t
-// `tick` ""quote"" 'q'
-255 : x ,
-    } ,")).
-Eval vm_compute in ("<<<M843>>>" ++ check (runes_of_ascii "packet A {
-  match k as n {
-    [1, ""bb"", 007, ""d"", 5, ""f"", 7] : B,
-    2 : C
-  },
-}")).
-Eval vm_compute in ("<<<M1305>>>" ++ check (runes_of_ascii "packet orderItem {
+Eval vm_compute in ("<<<M1837>>>" ++ check (runes_of_ascii "packet B {
     u8 a,
 }
-root packet newOrder {
-    orderItem,
-    u8 x,
-}
-")).
-Eval vm_compute in ("<<<M803>>>" ++ check (runes_of_ascii "packet A {
+
+root packet P {
+    u8 K,
+    u8 L @lengthOf(Body),
+    match K as Body {
+        1 : B,
+    },
+}")).
+Eval vm_compute in ("<<<M1164>>>" ++ check (runes_of_ascii "MetaData leftPad { chars MetaDataX , } packet repeatCount { char[
+// c
+255 ] uint8x `" ++ [233]%N ++ runes_of_ascii "` , } MetaData pack { As Foo , }")).
+Eval vm_compute in ("<<<M906>>>" ++ check (runes_of_ascii "packet A {
   match k as n {
-    [""a"", ""bb"", ""c c"", ""d""] : B
+    [""a"", ""bb"", ""c c"", ""d"", ""e"", ""f"", ""g"", ""h"", ""i"", ""j"", ""k"", ""l""] : B,
     2 : C
   },
 }")).
-Eval vm_compute in ("<<<M1401>>>" ++ check (runes_of_ascii "// top
-packet body {
+Eval vm_compute in ("<<<M494>>>" ++ check (runes_of_ascii "packet uint8x
+{ match pack
+    as msg_type	{
+    0123456789 :	float
+}
+,
+} packet //	t
+a1
+    { } options {")).
+Eval vm_compute in ("<<<M1285>>>" ++ check (runes_of_ascii "// top
+root
+    // c0
+packet // c1a
+  // c1b
+P
     // c2
-    i32 f32a `{ , }`,
-}
-
-// c7
-options {
-}")).
-Eval vm_compute in ("<<<M1283>>>" ++ check (runes_of_ascii "root packet P {
-    u16 a,
-    u32 Sum @calculatedFrom(""CR\
-C32""),
-}
+{ // c3
+string s // c5a
+  // c5b
+,
+    // c6
+} ")).
+Eval vm_compute in ("<<<M373>>>" ++ check (runes_of_ascii "  MetaData leftPad { /// triple
+char[] body,  As options1
+//
+/// triple
+,
+o
+    //x
+    i64_
+, }
 ")).
-Eval vm_compute in ("<<<M781>>>" ++ check (runes_of_ascii "packet A {
+Eval vm_compute in ("<<<M871>>>" ++ check (runes_of_ascii "packet A {
   match k as n {
-    [""a"", ""bb""] : B
+    [""a"", 22, ""c c"", 4, ""e"", 66, ""g"", 8, ""i""] : B,
     2 : C
   },
 }")).
-Eval vm_compute in ("<<<M779>>>" ++ check (runes_of_ascii "packet A {
+Eval vm_compute in ("<<<M226>>>" ++ check (runes_of_ascii "// a // b
+packet Pad {
+    char[] // packet A { u8 x, }
+Z9_ @lengthOf( Pad
+) `{ , }` , } 	 ")).
+Eval vm_compute in ("<<<M1692>>>" ++ check (runes_of_ascii "packet A {
+    B b `a
+    
+    b`,
+    B `a
+    
+    b`,
+    repeat B bs `a
+    
+    b`,
+}")).
+Eval vm_compute in ("<<<M850>>>" ++ check (runes_of_ascii "packet A {
   match k as n {
-    [1, 22] : B
+    [""a"", ""bb"", 007, ""d"", ""e"", 66, ""g""] : B
     2 : C
   },
 }")).
-Eval vm_compute in ("<<<M1633>>>" ++ check (runes_of_ascii "packet body {
-    i32 f32a `{ , }`,
-}
-
-// c
-options {
+Eval vm_compute in ("<<<M1426>>>" ++ check (runes_of_ascii "packet A {
+    match k as n {
+        [1, 22, 007, 4, 5] : B,
+        2 : C,
+    },
 }")).
-Eval vm_compute in ("<<<M1210>>>" ++ check (runes_of_ascii "packet body { i32 f32a `{ , }`
-// c
-, } options { }")).
-Eval vm_compute in ("<<<M756>>>" ++ check (runes_of_ascii "zchar ( : f64 ) , repeat f32 u16 float64 , ; :")).
-Eval vm_compute in ("<<<M772>>>" ++ check (runes_of_ascii "false int8 uint64 @lengthOf( , @leftPad :")).
-Eval vm_compute in ("<<<M935>>>" ++ check (runes_of_ascii "packet A {
-    u8 x `a
+Eval vm_compute in ("<<<M848>>>" ++ check (runes_of_ascii "packet A {
+  match k as n {
+    [1, 22, ""c c"", 4, 5, ""f"", 7] : B
+    2 : C
+  },
+}")).
+Eval vm_compute in ("<<<M820>>>" ++ check (runes_of_ascii "packet A {
+  match k as n {
+    [""a"", 22, ""c c"", 4, ""e""] : B
+    2 : C
+  },
+}")).
+Eval vm_compute in ("<<<M789>>>" ++ check (runes_of_ascii "packet A {
+  match k as n {
+    [""a"", ""bb"", ""c c""] : B,
+    2 : C
+  },
+}")).
+Eval vm_compute in ("<<<M1835>>>" ++ check (runes_of_ascii "MetaData
+	M
+	{u8
+    x `a
     b
-  c`,
+  c`
+, 
+T
+
+    t
+
+`a
+    b
+  c`,} ")).
+Eval vm_compute in ("<<<M1127>>>" ++ check (runes_of_ascii "// top
+MetaData
+    // c0
+u
+    // c1
+{ // c2a
+  // c2b
+} // c3
+")).
+Eval vm_compute in ("<<<M812>>>" ++ check (runes_of_ascii "packet A { Inner { match k as n { [1,22,007,4] : B, }, }, }")).
+Eval vm_compute in ("<<<M1802>>>" ++ check (runes_of_ascii "// c
+packet body {
+    i32 f32a `{ , }`,
+}
+
+options {
 }")).
-Eval vm_compute in ("<<<M1413>>>" ++ check (runes_of_ascii "packet A {
-    u8 x `d" ++ [11]%N ++ runes_of_ascii "`,// c" ++ [11]%N ++ runes_of_ascii "
+Eval vm_compute in ("<<<M1209>>>" ++ check (runes_of_ascii "packet body { i32 f32a `{ , }` // c
+, } options { }")).
+Eval vm_compute in ("<<<M1257>>>" ++ check (runes_of_ascii "
+root	packet
+
+P	{
+	hdr {u8  a,
+}  ,u8 
+x , 
+}
+")).
+Eval vm_compute in ("<<<M951>>>" ++ check (runes_of_ascii "MetaData M {
+    u8 x `x
+`,
+    T t `x
+`,
 }")).
-Eval vm_compute in ("<<<M1048>>>" ++ check (runes_of_ascii "packet A {
- u8 x `d" ++ [8203]%N ++ runes_of_ascii "`, // c" ++ [8203]%N ++ runes_of_ascii "
+Eval vm_compute in ("<<<M1067>>>" ++ check (runes_of_ascii "packet A {    u8 x, // c    u8 y,}")).
+Eval vm_compute in ("<<<M922>>>" ++ check (runes_of_ascii "root packet A {
+    u8 x `a
+b`,
 }")).
-Eval vm_compute in ("<<<M1080>>>" ++ check (runes_of_ascii "options { a = 1 // a
- ; }")).
-Eval vm_compute in ("<<<M1809>>>" ++ check (runes_of_ascii "
-options	{// a
-		}
+Eval vm_compute in ("<<<M586>>>" ++ check (runes_of_ascii "
+packet
+    asx {match u128 as")).
+Eval vm_compute in ("<<<M381>>>" ++ check (runes_of_ascii "options{
+int
+=char[] ; }
+//
+")).
+Eval vm_compute in ("<<<M326>>>" ++ check (runes_of_ascii "  options{// a // b
+}
 
 ")).
-Eval vm_compute in ("<<<M244>>>" ++ check (runes_of_ascii "MetaData u128{} //x")).
-Eval vm_compute in ("<<<M1007>>>" ++ check (runes_of_ascii "// c" ++ [8202]%N ++ runes_of_ascii "
-packet A {
-}")).
-Eval vm_compute in ("<<<M729>>>" ++ check (runes_of_ascii "// only a comment")).
-Eval vm_compute in ("<<<M1735>>>" ++ check (runes_of_ascii "// @lengthOf(
+Eval vm_compute in ("<<<M1537>>>" ++ check (runes_of_ascii "  packet
+A {}// c" ++ [5760]%N ++ runes_of_ascii "
  
 ")).
-Eval vm_compute in ("<<<M1902>>>" ++ check (runes_of_ascii "
-
-  // " ++ [27880; 37322]%N ++ runes_of_ascii "
+Eval vm_compute in ("<<<M103>>>" ++ check (runes_of_ascii "packet packetx	{ }")).
+Eval vm_compute in ("<<<M1047>>>" ++ check (runes_of_ascii "// c" ++ [8203]%N ++ runes_of_ascii "
+packet A {
+}")).
+Eval vm_compute in ("<<<M1054>>>" ++ check (runes_of_ascii "packet A {
+}// c" ++ [6158]%N)).
+Eval vm_compute in ("<<<M712>>>" ++ check (runes_of_ascii "// @lengthOf(
 ")).
-Eval vm_compute in ("<<<M726>>>" ++ check (runes_of_ascii "
-	 ")).
+Eval vm_compute in ("<<<M252>>>" ++ check (runes_of_ascii " // c")).
+Eval vm_compute in ("<<<M728>>>" ++ check (runes_of_ascii "		")).
